@@ -68,6 +68,11 @@ pub trait Tgt: Sized {
     fn load(bytes: &[u8]) -> Result<Self, String>;
     fn load_ms(bytes: &[u8], ms: usize) -> Result<Self, String>;
     fn load_len(bytes: &[u8], len: usize) -> Result<Self, String>;
+    /// streaming load: pull `pulls` runs from `load_iter`, then finalize (plain load where there is no public load_iter)
+    fn load_stream(bytes: &[u8], pulls: usize) -> Result<Self, String> {
+        let _ = pulls;
+        Self::load(bytes)
+    }
     fn check_invariants(&self);
     fn validate_encoding(&self) -> Result<(), String>;
     fn dup(&self) -> Self;
@@ -500,6 +505,17 @@ macro_rules! impl_plain {
             fn load_len(bytes: &[u8], len: usize) -> Result<Self, String> {
                 Column::load_with(bytes, LoadOpts::new().with_length(len)).map_err(pe)
             }
+            fn load_stream(bytes: &[u8], pulls: usize) -> Result<Self, String> {
+                let mut it = Column::<$t>::load_iter(bytes, LoadOpts::new());
+                for _ in 0..pulls {
+                    match it.try_next_run() {
+                        Ok(Some(_)) => {}
+                        Ok(None) => break,
+                        Err(e) => return Err(pe(e)),
+                    }
+                }
+                it.finalize().map_err(pe)
+            }
             fn check_invariants(&self) {
                 Column::check_invariants(self)
             }
@@ -753,6 +769,17 @@ macro_rules! impl_prefix {
             }
             fn load_len(bytes: &[u8], len: usize) -> Result<Self, String> {
                 PrefixColumn::load_with(bytes, LoadOpts::new().with_length(len)).map_err(pe)
+            }
+            fn load_stream(bytes: &[u8], pulls: usize) -> Result<Self, String> {
+                let mut it = PrefixColumn::<$t>::load_iter(bytes, LoadOpts::new());
+                for _ in 0..pulls {
+                    match it.try_next_run() {
+                        Ok(Some(_)) => {}
+                        Ok(None) => break,
+                        Err(e) => return Err(pe(e)),
+                    }
+                }
+                it.finalize().map_err(pe)
             }
             fn check_invariants(&self) {}
             fn validate_encoding(&self) -> Result<(), String> {
